@@ -154,6 +154,7 @@ class Sequential(Module):
         
     def forward(self, x:Tensor) -> Tensor:
         inp = x
+        out = x
         for module in self.submodules():
             out = module(inp)
             inp = out
